@@ -32,6 +32,8 @@ PANIC_CALLS = [
     (re.compile(r"thread::(spawn|sleep)|sync::mpsc|Condvar"), "thread"),
 ]
 
+RELEVANT_ARGS = {"rangemap-insert": (1,)}     # RangeInclusiveMap::insert panics iff start > end
+
 ALLOC_CALLS = [
     (re.compile(r"vec::Vec::<T>::with_capacity$|vec::Vec::<.*>::with_capacity_in$"), "with_capacity", 0),
     (re.compile(r"vec::from_elem$"), "from_elem", 1),
@@ -172,9 +174,11 @@ def scan_body(F, b):
                 elif "GenericArray" not in full.split(" as ")[-1] and "from_slice" not in nm:
                     kind = None
             if kind:
+                # operands the panic condition does not depend on are left out of the key (rangemap insert: only the range)
+                rel = RELEVANT_ARGS.get(kind)
                 term = "%s(%s)" % (short_callee(nm, full), ",".join(b.oname(a, 3) for a in t["args"]))
                 with b.alpha():
-                    nterm = "%s(%s)" % (short_callee(nm, full), ",".join(b.oname(a, 3) for a in t["args"]))
+                    nterm = "%s(%s)" % (short_callee(nm, full), ",".join(b.oname(a, 3) if (rel is None or i in rel) else "_" for i, a in enumerate(t["args"])))
                 sites.append(Site(b, fn, "call:" + kind, term, bi, 10**6, t["ln"], nterm))
                 continue
             for rx, k, argi in ALLOC_CALLS:
